@@ -227,6 +227,7 @@ type Ctx struct {
 	children []*Ctx
 	after    []func()
 	timer    *Timer
+	deadline time.Time
 }
 
 // NewCtx creates a cancellable controlled context.
@@ -236,7 +237,15 @@ func NewCtx(name string) *Ctx {
 	return c
 }
 
-func (c *Ctx) Deadline() (time.Time, bool) { return time.Time{}, false }
+func (c *Ctx) Deadline() (time.Time, bool) {
+	if !c.deadline.IsZero() {
+		return c.deadline, true
+	}
+	if c.parent != nil {
+		return c.parent.Deadline()
+	}
+	return time.Time{}, false
+}
 func (c *Ctx) Done() <-chan struct{}       { return c.done }
 func (c *Ctx) Value(k any) any {
 	if v, ok := c.vals[k]; ok {
@@ -275,6 +284,7 @@ func (c *Ctx) ExpireAfter(d int64) {
 	ch := MakeChan[struct{}](1)
 	c.timer = NewTimer(ch, d, func(int64) struct{} { return struct{}{} })
 	c.timer.tm.onFire = func() { c.cancelWith(context.DeadlineExceeded) }
+	c.deadline = VirtualNow().Add(time.Duration(d))
 }
 
 // AfterFunc runs f (as part of the cancelling step) when the context is cancelled.
@@ -310,6 +320,10 @@ func (c *Ctx) Err() error {
 	}
 	return c.err
 }
+
+// PeekErr reads the context's error without a scheduling point (harness bookkeeping in the step of the
+// preceding operation).
+func (c *Ctx) PeekErr() error { return c.err }
 
 // Cancel cancels the context (a scheduling point: closes the Done channel).
 func (c *Ctx) Cancel() {
